@@ -385,6 +385,70 @@ fn check(case: &Case, rep: &mut Report) {
     rep.count("chains_checked_ok");
 }
 
+/// The stream is given up after `k` of its items (a caller that only wanted the first answer, a `select!` that took
+/// another branch): the replies it has not handed out are still frames the peer sent, so the receives that follow
+/// get them - and the frames of the later exchange - in order, whatever the chunking.
+fn check_left_early(case: &Case, k: usize, rep: &mut Report) {
+    rep.eval(case.hash() ^ 0x1eaf ^ ((k as u64) << 50));
+    rep.count("streams_left_early");
+    let res = vnet::catch(|| -> Result<(Vec<String>, Vec<String>), String> {
+        let wire = new_wire(0);
+        let mut conn = Connection::new(VSocket(wire.clone()));
+        vnet::warm_up_kind(&mut conn, &wire, case.history);
+        let all: Vec<u8> = case.replies.iter().chain(case.trailing.iter()).flat_map(|r| r.bytes()).collect();
+        for c in vnet::chunks_at(&all, &case.cuts) {
+            for _ in 0..case.pendings {
+                wire.borrow_mut().push(Rx::Pending);
+            }
+            wire.borrow_mut().push(Rx::Bytes(c));
+        }
+        let mut items = Vec::new();
+        {
+            let mut chain = conn.chain_call::<MC, Tagged, EC>(&call_padded(case.kinds[0], 0, case.pad)).map_err(|e| format!("enqueue: {e:?}"))?;
+            for (i, kd) in case.kinds.iter().enumerate().skip(1) {
+                chain = chain.append(&call_padded(*kd, i as u32, case.pad)).map_err(|e| format!("enqueue: {e:?}"))?;
+            }
+            let stream = vnet::block_on(chain.send(), 4).ok_or("send stalled")?.map_err(|e| format!("send: {e:?}"))?;
+            let mut stream = core::pin::pin!(stream);
+            let budget = (case.pendings + 1) * (case.cuts.len() + 2) + 4;
+            while items.len() < k {
+                match vnet::block_on(stream.next(), budget) {
+                    Some(Some(r)) => items.push(canon_item(&r)),
+                    Some(None) => return Err(format!("the stream ended after {} items", items.len())),
+                    None => return Err(format!("the stream stalled after {} items although every byte was queued", items.len())),
+                }
+            }
+            // the stream is dropped here
+        }
+        let mut rest = Vec::new();
+        let budget = (case.pendings + 1) * (case.cuts.len() + 2) + 4;
+        for _ in k..case.replies.len() + case.trailing.len() {
+            match vnet::block_on(conn.receive_reply::<Tagged, EC>(), budget) {
+                Some(r) => rest.push(canon_item(&r)),
+                None => {
+                    rest.push("stalled".into());
+                    break;
+                }
+            }
+        }
+        Ok((items, rest))
+    });
+    let want: Vec<String> = case.replies.iter().chain(case.trailing.iter()).map(|r| r.canon()).collect();
+    let desc = || format!("chain {:?}; left after {k} of {} owed replies; then {} later frames; cuts {:?}; history {}", case.kinds, case.replies.len(), case.trailing.len(), case.cuts, case.history);
+    match res {
+        Err(p) => rep.violation("C06/panic", format!("panic (stream left early): {p}"), case.replay()),
+        Ok(Err(e)) => rep.violation("C06/stream-left-early:items-differ-from-owed-replies", format!("{e}; {}", desc()), case.replay()),
+        Ok(Ok((items, rest))) => {
+            let got: Vec<String> = items.iter().chain(rest.iter()).cloned().collect();
+            if got != want {
+                rep.violation("C06/stream-left-early:frames-not-handed-out-are-not-received-afterwards", format!("items {items:?}, later receives {rest:?}, the peer sent {want:?}; {}", desc()), case.replay());
+            } else {
+                rep.count("streams_left_early_ok");
+            }
+        }
+    }
+}
+
 /// Expand a flag word into owed replies with `script` choices drawn from `pick`.
 fn script_for(kinds: &[Kind], pick: &mut dyn FnMut(usize) -> usize) -> Vec<Rep> {
     let mut out = Vec::new();
@@ -489,6 +553,10 @@ pub fn run(cfg: &Cfg) -> Report {
                             rep.count("chains_on_a_connection_with_history");
                         }
                         check(&case, &mut rep);
+                        if case.replies.len() >= 2 && rng.chance(1, 5) {
+                            let k = rng.range(1, case.replies.len() - 1);
+                            check_left_early(&case, k, &mut rep);
+                        }
                     }
                 }
                 if idx % 97 == 0 && v == 2 {
@@ -548,6 +616,10 @@ pub fn run(cfg: &Cfg) -> Report {
         rep.count("long_reply_runs");
         rep.max("max_replies_owed_to_one_chain", case.replies.len() as u64);
         check(&case, &mut rep);
+        if case.replies.len() >= 2 && rng.chance(1, 5) {
+            let k = rng.range(1, case.replies.len() - 1);
+            check_left_early(&case, k, &mut rep);
+        }
     }
     // big chains: the calls of one chain add up to tens or hundreds of KiB and must still go out in one write
     let nbig = if miri { 0 } else { cfg.n(24, 400) };
